@@ -1,164 +1,3 @@
-(** Executable model (LTS) of the lifecycle of a Nextline object, as implemented
-    by nextline/main.py, imp.py (the asyncio.Lock serialising start/run/reset/
-    close), continuous.py, fsm/{config,machine,callback}.py,
-    plugin/plugins/argument.py, session/session.py (RunSession.run) and the
-    registrars that publish state/run info -- the code after the `fix:` commits.
-    Definitions only.  (File assembled by coq/gen/gen_life_model.py from
-    life_model_head.v + generated setters + life_model_body.v.)
-
-    Granularity.  A transition of the model is one *atomic segment* of a task:
-    the code between two suspension points.  Suspension points are
-      - a hook gate: every `await ahook.X(...)` waits for the implementations
-        of user plugins, which may take arbitrarily long (public plugin API);
-      - a genuine wait: the lifecycle lock, `started.wait()`,
-        `_run_finished.wait()`, `await _task_run`, process creation, the exit
-        of the child process.
-    The scheduler is adversarial: [Step t] / [StepRun] advance one task by one
-    segment; a label whose task waits on a false condition is a no-op.  "For
-    every schedule / history" is "for every [list label]".
-
-    One fairness fact of asyncio is built in (assumption F, DESIGN.md 4.2): the
-    run task does not observe the child's exit while the run() call that
-    started it still has to perform its (already enabled) state notification.
-    It is a guard in [do_step_run] and is validated by the co-simulation. *)
-From Coq Require Export List ZArith Bool Arith.
-Export ListNotations.
-Open Scope Z_scope.
-
-Inductive fsm := Created | Initialized | Running | Finished | Closed.
-
-Record opts := mkOpts {
-  o_stmt : option Z; o_start : option Z; o_threads : option bool; o_modules : option bool }.
-
-Record runarg := mkRunArg { ra_no : Z; ra_stmt : Z; ra_threads : bool; ra_modules : bool }.
-
-Inductive outcome := OReturn | ORaise | OSysExit | ODied | OInterrupt.
-
-Inductive call :=
-| CStart | CRun | CReset (o : opts) | CClose
-| CRunCont | CRunContWait | CRunSession | CSignal | CSend.
-
-Inductive result := ROk | RMachineError | RAssertionError | RAttributeError | RRuntimeError.
-
-Inductive hook :=
-| HStart | HChangeScript | HInitRun | HChangeState | HStartRun | HEndRun | HFinished
-| HReset | HClose | HSignal | HSend.
-
-(** a hook invocation as a user plugin sees it *)
-Record hookrec := mkHook {
-  h_hook : hook;
-  h_fsm : fsm;                 (* Nextline.state inside the hook *)
-  h_runno : option Z;          (* context.run_arg.run_no, None if run_arg is None *)
-  h_stmt : option Z;           (* script carried by the hook (on_change_script, run_arg.statement) *)
-  h_start : option Z           (* reset hook: reset_options.run_no_start_from *)
-}.
-
-Inductive rphase := RInitialized | RRunning | RFinished.
-
-Inductive pub :=
-| PState (s : fsm)
-| PRunInfo (no : Z) (ph : rphase) (stmt : Z) (res : option outcome)
-| PRunNo (no : Z)
-| PStatement (s : Z)
-| PCont (b : bool)
-| PEndAll        (* PubSub.close(): every topic of the broker ended *)
-| PEndCont.      (* the `continuous enabled` item closed *)
-
-Inductive event :=
-| EvHook (h : hookrec)
-| EvPub (p : pub)
-| EvRet (t : nat) (c : call) (r : result).
-
-(** program counters of an API task = the suspension point it is at *)
-Inductive pc :=
-| WaitLock1 | Granted1        (* queued for / just given the lock: start part *)
-| WaitLock2 | Granted2        (* the same for the close part of close() *)
-| S_G1 | S_G2 | S_G3          (* start: gates start+on_change_script, on_initialize_run, on_change_state *)
-| R_WaitStarted | R_G         (* run: started.wait(), gate on_change_state *)
-| Z_G1 | Z_G1b | Z_WaitRunTask | Z_G3 | Z_G4
-| C_WaitRunFinished | C_WaitRunTask | C_G3 | C_G4
-| P_WaitRunFinished           (* run_session / run_continue_and_wait, after the lock *)
-| Sig_G.
-
-(** program counters of the run task (Callback._run) *)
-Inductive rpc :=
-| RT_New | RT_Created | RT_G_start | RT_WaitChild | RT_G_end | RT_G_fin | RT_G_cs.
-
-(* ---- generated by coq/gen/gen_life_model.py: the state record and one setter per field ---- *)
-Record state := mkState {
-  st_fsm : fsm;
-  nl_started : bool;
-  nl_closed : bool;
-  holder : option nat; (* task holding the lifecycle lock *)
-  lockq : list nat; (* FIFO of waiters *)
-  tasks : list (nat * (call * pc)); (* API calls in flight *)
-  runt : option rpc; (* the run task (Callback._run), if it exists *)
-  run_owner : nat; (* the task whose run request created it (its contextvars context) *)
-  run_finished : option bool; (* Callback._run_finished: None = no such attribute yet *)
-  started_ev : bool;
-  run_arg : option runarg; (* Context.run_arg *)
-  running_process : bool; (* Context.running_process is not None *)
-  send_command : bool; (* Context.send_command is not None *)
-  exited_proc : option outcome; (* Context.exited_process (its result) *)
-  c_stmt : Z; (* RunArgComposer *)
-  c_next : Z;
-  c_threads : bool;
-  c_modules : bool;
-  alive : nat; (* child processes alive *)
-  pending_exit : option outcome; (* a child has exited, not yet awaited *)
-  cont_plugins : list (nat * bool); (* registered Continue plugins: requesting task, run started *)
-  cont_closed : bool; (* the `continuous enabled` item is closed *)
-  trace : list event (* everything observable, newest first *)
-}.
-
-Definition set_st_fsm (s : state) (v : fsm) : state :=
-  mkState v (nl_started s) (nl_closed s) (holder s) (lockq s) (tasks s) (runt s) (run_owner s) (run_finished s) (started_ev s) (run_arg s) (running_process s) (send_command s) (exited_proc s) (c_stmt s) (c_next s) (c_threads s) (c_modules s) (alive s) (pending_exit s) (cont_plugins s) (cont_closed s) (trace s).
-Definition set_nl_started (s : state) (v : bool) : state :=
-  mkState (st_fsm s) v (nl_closed s) (holder s) (lockq s) (tasks s) (runt s) (run_owner s) (run_finished s) (started_ev s) (run_arg s) (running_process s) (send_command s) (exited_proc s) (c_stmt s) (c_next s) (c_threads s) (c_modules s) (alive s) (pending_exit s) (cont_plugins s) (cont_closed s) (trace s).
-Definition set_nl_closed (s : state) (v : bool) : state :=
-  mkState (st_fsm s) (nl_started s) v (holder s) (lockq s) (tasks s) (runt s) (run_owner s) (run_finished s) (started_ev s) (run_arg s) (running_process s) (send_command s) (exited_proc s) (c_stmt s) (c_next s) (c_threads s) (c_modules s) (alive s) (pending_exit s) (cont_plugins s) (cont_closed s) (trace s).
-Definition set_holder (s : state) (v : option nat) : state :=
-  mkState (st_fsm s) (nl_started s) (nl_closed s) v (lockq s) (tasks s) (runt s) (run_owner s) (run_finished s) (started_ev s) (run_arg s) (running_process s) (send_command s) (exited_proc s) (c_stmt s) (c_next s) (c_threads s) (c_modules s) (alive s) (pending_exit s) (cont_plugins s) (cont_closed s) (trace s).
-Definition set_lockq (s : state) (v : list nat) : state :=
-  mkState (st_fsm s) (nl_started s) (nl_closed s) (holder s) v (tasks s) (runt s) (run_owner s) (run_finished s) (started_ev s) (run_arg s) (running_process s) (send_command s) (exited_proc s) (c_stmt s) (c_next s) (c_threads s) (c_modules s) (alive s) (pending_exit s) (cont_plugins s) (cont_closed s) (trace s).
-Definition set_tasks (s : state) (v : list (nat * (call * pc))) : state :=
-  mkState (st_fsm s) (nl_started s) (nl_closed s) (holder s) (lockq s) v (runt s) (run_owner s) (run_finished s) (started_ev s) (run_arg s) (running_process s) (send_command s) (exited_proc s) (c_stmt s) (c_next s) (c_threads s) (c_modules s) (alive s) (pending_exit s) (cont_plugins s) (cont_closed s) (trace s).
-Definition set_runt (s : state) (v : option rpc) : state :=
-  mkState (st_fsm s) (nl_started s) (nl_closed s) (holder s) (lockq s) (tasks s) v (run_owner s) (run_finished s) (started_ev s) (run_arg s) (running_process s) (send_command s) (exited_proc s) (c_stmt s) (c_next s) (c_threads s) (c_modules s) (alive s) (pending_exit s) (cont_plugins s) (cont_closed s) (trace s).
-Definition set_run_owner (s : state) (v : nat) : state :=
-  mkState (st_fsm s) (nl_started s) (nl_closed s) (holder s) (lockq s) (tasks s) (runt s) v (run_finished s) (started_ev s) (run_arg s) (running_process s) (send_command s) (exited_proc s) (c_stmt s) (c_next s) (c_threads s) (c_modules s) (alive s) (pending_exit s) (cont_plugins s) (cont_closed s) (trace s).
-Definition set_run_finished (s : state) (v : option bool) : state :=
-  mkState (st_fsm s) (nl_started s) (nl_closed s) (holder s) (lockq s) (tasks s) (runt s) (run_owner s) v (started_ev s) (run_arg s) (running_process s) (send_command s) (exited_proc s) (c_stmt s) (c_next s) (c_threads s) (c_modules s) (alive s) (pending_exit s) (cont_plugins s) (cont_closed s) (trace s).
-Definition set_started_ev (s : state) (v : bool) : state :=
-  mkState (st_fsm s) (nl_started s) (nl_closed s) (holder s) (lockq s) (tasks s) (runt s) (run_owner s) (run_finished s) v (run_arg s) (running_process s) (send_command s) (exited_proc s) (c_stmt s) (c_next s) (c_threads s) (c_modules s) (alive s) (pending_exit s) (cont_plugins s) (cont_closed s) (trace s).
-Definition set_run_arg (s : state) (v : option runarg) : state :=
-  mkState (st_fsm s) (nl_started s) (nl_closed s) (holder s) (lockq s) (tasks s) (runt s) (run_owner s) (run_finished s) (started_ev s) v (running_process s) (send_command s) (exited_proc s) (c_stmt s) (c_next s) (c_threads s) (c_modules s) (alive s) (pending_exit s) (cont_plugins s) (cont_closed s) (trace s).
-Definition set_running_process (s : state) (v : bool) : state :=
-  mkState (st_fsm s) (nl_started s) (nl_closed s) (holder s) (lockq s) (tasks s) (runt s) (run_owner s) (run_finished s) (started_ev s) (run_arg s) v (send_command s) (exited_proc s) (c_stmt s) (c_next s) (c_threads s) (c_modules s) (alive s) (pending_exit s) (cont_plugins s) (cont_closed s) (trace s).
-Definition set_send_command (s : state) (v : bool) : state :=
-  mkState (st_fsm s) (nl_started s) (nl_closed s) (holder s) (lockq s) (tasks s) (runt s) (run_owner s) (run_finished s) (started_ev s) (run_arg s) (running_process s) v (exited_proc s) (c_stmt s) (c_next s) (c_threads s) (c_modules s) (alive s) (pending_exit s) (cont_plugins s) (cont_closed s) (trace s).
-Definition set_exited_proc (s : state) (v : option outcome) : state :=
-  mkState (st_fsm s) (nl_started s) (nl_closed s) (holder s) (lockq s) (tasks s) (runt s) (run_owner s) (run_finished s) (started_ev s) (run_arg s) (running_process s) (send_command s) v (c_stmt s) (c_next s) (c_threads s) (c_modules s) (alive s) (pending_exit s) (cont_plugins s) (cont_closed s) (trace s).
-Definition set_c_stmt (s : state) (v : Z) : state :=
-  mkState (st_fsm s) (nl_started s) (nl_closed s) (holder s) (lockq s) (tasks s) (runt s) (run_owner s) (run_finished s) (started_ev s) (run_arg s) (running_process s) (send_command s) (exited_proc s) v (c_next s) (c_threads s) (c_modules s) (alive s) (pending_exit s) (cont_plugins s) (cont_closed s) (trace s).
-Definition set_c_next (s : state) (v : Z) : state :=
-  mkState (st_fsm s) (nl_started s) (nl_closed s) (holder s) (lockq s) (tasks s) (runt s) (run_owner s) (run_finished s) (started_ev s) (run_arg s) (running_process s) (send_command s) (exited_proc s) (c_stmt s) v (c_threads s) (c_modules s) (alive s) (pending_exit s) (cont_plugins s) (cont_closed s) (trace s).
-Definition set_c_threads (s : state) (v : bool) : state :=
-  mkState (st_fsm s) (nl_started s) (nl_closed s) (holder s) (lockq s) (tasks s) (runt s) (run_owner s) (run_finished s) (started_ev s) (run_arg s) (running_process s) (send_command s) (exited_proc s) (c_stmt s) (c_next s) v (c_modules s) (alive s) (pending_exit s) (cont_plugins s) (cont_closed s) (trace s).
-Definition set_c_modules (s : state) (v : bool) : state :=
-  mkState (st_fsm s) (nl_started s) (nl_closed s) (holder s) (lockq s) (tasks s) (runt s) (run_owner s) (run_finished s) (started_ev s) (run_arg s) (running_process s) (send_command s) (exited_proc s) (c_stmt s) (c_next s) (c_threads s) v (alive s) (pending_exit s) (cont_plugins s) (cont_closed s) (trace s).
-Definition set_alive (s : state) (v : nat) : state :=
-  mkState (st_fsm s) (nl_started s) (nl_closed s) (holder s) (lockq s) (tasks s) (runt s) (run_owner s) (run_finished s) (started_ev s) (run_arg s) (running_process s) (send_command s) (exited_proc s) (c_stmt s) (c_next s) (c_threads s) (c_modules s) v (pending_exit s) (cont_plugins s) (cont_closed s) (trace s).
-Definition set_pending_exit (s : state) (v : option outcome) : state :=
-  mkState (st_fsm s) (nl_started s) (nl_closed s) (holder s) (lockq s) (tasks s) (runt s) (run_owner s) (run_finished s) (started_ev s) (run_arg s) (running_process s) (send_command s) (exited_proc s) (c_stmt s) (c_next s) (c_threads s) (c_modules s) (alive s) v (cont_plugins s) (cont_closed s) (trace s).
-Definition set_cont_plugins (s : state) (v : list (nat * bool)) : state :=
-  mkState (st_fsm s) (nl_started s) (nl_closed s) (holder s) (lockq s) (tasks s) (runt s) (run_owner s) (run_finished s) (started_ev s) (run_arg s) (running_process s) (send_command s) (exited_proc s) (c_stmt s) (c_next s) (c_threads s) (c_modules s) (alive s) (pending_exit s) v (cont_closed s) (trace s).
-Definition set_cont_closed (s : state) (v : bool) : state :=
-  mkState (st_fsm s) (nl_started s) (nl_closed s) (holder s) (lockq s) (tasks s) (runt s) (run_owner s) (run_finished s) (started_ev s) (run_arg s) (running_process s) (send_command s) (exited_proc s) (c_stmt s) (c_next s) (c_threads s) (c_modules s) (alive s) (pending_exit s) (cont_plugins s) v (trace s).
-Definition set_trace (s : state) (v : list event) : state :=
-  mkState (st_fsm s) (nl_started s) (nl_closed s) (holder s) (lockq s) (tasks s) (runt s) (run_owner s) (run_finished s) (started_ev s) (run_arg s) (running_process s) (send_command s) (exited_proc s) (c_stmt s) (c_next s) (c_threads s) (c_modules s) (alive s) (pending_exit s) (cont_plugins s) (cont_closed s) v.
-(* ---- end of generated part ---- *)
-
 Definition init_state (stmt start : Z) (threads modules : bool) : state :=
   mkState Created false false None [] [] None 0%nat None false None false false None
           stmt start threads modules 0%nat None [] false [].
